@@ -1,7 +1,752 @@
 //! Model-backed runs for the hyrax scheme: `run(ctx, prop)` is called for every property; handle the
 //! properties this scheme takes part in and return immediately for the others.
+//! Trapdoor mode (see `hyrax.rs`): every case id starts with `<prop>/hyrax-model/`.
+#[path = "hyrax.rs"]
+pub mod hyrax;
+
+use crate::common::*;
+use crate::wire::{self, Req, Val};
 use crate::Ctx;
+use ark_bls12_381::{Fr, G1Affine};
+use ark_ec::{AffineRepr, CurveGroup};
+use ark_ff::{Field, UniformRand, Zero};
+use ark_poly::Polynomial;
+use ark_poly_commit::LabeledPolynomial;
+use ark_serialize::CanonicalSerialize;
+use hyrax::*;
 
 pub fn run(ctx: &mut Ctx, prop: &str) {
-    let _ = (ctx, prop);
+    match prop {
+        "C01" => c01(ctx),
+        "C02" => c02(ctx),
+        "C03" => c03(ctx),
+        "C08" => c08(ctx),
+        "C10" => c10(ctx),
+        "C11" => c11(ctx),
+        "C19" => c19(ctx),
+        _ => {}
+    }
+}
+
+fn nv_for(ctx: &Ctx, rng: &mut Rng, i: usize) -> usize {
+    if ctx.thorough {
+        match i % 12 {
+            11 => 10,
+            _ => [2, 4, 6, 8][range(rng, 0, 3)],
+        }
+    } else {
+        [2, 4, 6][i % 3]
+    }
+}
+
+/// an honest case (commitments of `k` polynomials) opened at a random point; failures of in-domain
+/// requests are expectation failures
+fn base(ctx: &mut Ctx, rng: &mut Rng, id: &str, nv: usize, kinds: &[usize]) -> Option<(Case, Opened)> {
+    let c = match gen_case_with(rng, nv, kinds) {
+        Ok(c) => c,
+        Err(e) => {
+            ctx.rep.expect_fail(
+                id,
+                &format!("hyrax/honest-commit-failed/{}", e.split(':').next().unwrap_or("")),
+                &format!("in-domain commit refused or not key-defined: {}", e),
+                format!("# scheme: hyrax\n# case: {}\n# seed: {}\n# nv={} kinds={:?}\n# {}\n", id, ctx.seed, nv, kinds, e),
+            );
+            return None;
+        }
+    };
+    let (point, _) = rand_point(rng, nv);
+    match open_lib(&c.trap, &c.polys, &c.coms, &c.states, &point, rng) {
+        Ok(o) => Some((c, o)),
+        Err(e) => {
+            ctx.rep.expect_fail(
+                id,
+                &format!("hyrax/honest-open-failed/{}", e.split(':').next().unwrap_or("")),
+                &format!("in-domain open refused or not key-defined: {}", e),
+                c.replay(id, ctx.seed, &format!("point={} : {}", wire::fes(&point), e)),
+            );
+            None
+        }
+    }
+}
+
+fn kinds_for(rng: &mut Rng, i: usize, k: usize) -> Vec<usize> {
+    // the first polynomial cycles through zero / constant / sparse / counting / random
+    let mut v = vec![[0usize, 1, 2, 3, 4][i % 5]];
+    for _ in 1..k {
+        v.push(range(rng, 0, 7));
+    }
+    v
+}
+
+fn stmt_text(st: &Stmt) -> String {
+    format!(
+        "ks={} h={} coms={} point={} values={} com_eval={} com_d={} com_b={} zs={} z_d={} z_b={} r_eval={}",
+        wire::fes(&st.ks),
+        wire::fe(&st.h),
+        wire::fess(&st.coms),
+        wire::fes(&st.point),
+        wire::fes(&st.values),
+        wire::fes(&st.proofs.iter().map(|p| p.ce).collect::<Vec<_>>()),
+        wire::fes(&st.proofs.iter().map(|p| p.cd).collect::<Vec<_>>()),
+        wire::fes(&st.proofs.iter().map(|p| p.cb).collect::<Vec<_>>()),
+        wire::fess(&st.proofs.iter().map(|p| p.z.clone()).collect::<Vec<_>>()),
+        wire::fes(&st.proofs.iter().map(|p| p.z_d).collect::<Vec<_>>()),
+        wire::fes(&st.proofs.iter().map(|p| p.z_b).collect::<Vec<_>>()),
+        wire::fes(&st.proofs.iter().map(|p| p.r_eval).collect::<Vec<_>>()),
+    )
+}
+
+// ------------------------------------------------------------------------------------------------
+// C01
+// ------------------------------------------------------------------------------------------------
+
+fn c01(ctx: &mut Ctx) {
+    let n = ctx.n(18, 240);
+    for i in 0..n {
+        let id = format!("C01/hyrax-model/{}", i);
+        if !ctx.selected(&id) {
+            continue;
+        }
+        let mut rng = rng_for(ctx.seed, "C01/hyrax-model", i as u64);
+        let nv = nv_for(ctx, &mut rng, i);
+        let k = 1 + (i / 3) % 3;
+        let kinds = kinds_for(&mut rng, i, k);
+        let (c, o) = match base(ctx, &mut rng, &id, nv, &kinds) {
+            Some(x) => x,
+            None => continue,
+        };
+        ask_commit(ctx, &id, &c);
+        // the helper functions of the model against the crate's own
+        let (l, r) = tensors(&o.point);
+        let rev: Vec<Fr> = o.point.iter().rev().cloned().collect();
+        ctx.ses.ask(
+            &id,
+            Req::new("hyrax.tensor_prime").arg("values", wire::fes(&rev[nv / 2..])),
+            ImplOutcome::Ok(vec![("t".into(), Expect::Fes(l.clone()))]),
+        );
+        ctx.ses.ask(
+            &id,
+            Req::new("hyrax.tensor_prime").arg("values", wire::fes(&rev[..nv / 2])),
+            ImplOutcome::Ok(vec![("t".into(), Expect::Fes(r.clone()))]),
+        );
+        let values: Vec<Fr> = c.polys.iter().map(|p| p.polynomial().evaluate(&o.point)).collect();
+        for (j, v) in values.iter().enumerate() {
+            // the specification of the claimed value: ark-poly's `evaluate`
+            ctx.ses.ask(
+                &id,
+                Req::new("hyrax.mle_eval").arg("evals", wire::fes(&c.evals(j))).arg("point", wire::fes(&o.point)),
+                ImplOutcome::Ok(vec![("v".into(), Expect::Fe(*v))]),
+            );
+        }
+        ask_open(ctx, &id, &c.trap, &c.labels(), &c.labels(), &vec![nv; k], &c.mirrors, &o);
+        let st = honest_stmt(&c, &o);
+        let ch = run_check(ctx, &id, &st);
+        if ch.dec != Dec::Accept {
+            ctx.rep.expect_fail(
+                &id,
+                "hyrax/honest-rejected",
+                &format!("honest proof of a true claim was not accepted: {}", ch.detail),
+                c.replay(&id, ctx.seed, &format!("check(honest) = {} : {}", ch.detail, stmt_text(&st))),
+            );
+        }
+        for kd in &c.kinds {
+            ctx.rep.count(&format!("hyrax-model/poly-{}", kd));
+        }
+        ctx.rep.count(&format!("hyrax-model/nv-{}", nv));
+        ctx.rep.count(&format!("hyrax-model/k-{}", k));
+        ctx.rep.case(&c.desc(), Some(format!("hyrax-model/{}/{}/{}", nv, k, c.kinds[0])));
+    }
+    // flat_to_matrix_column_major, also non-square and with a wrong length (abort)
+    for i in 0..ctx.n(6, 40) {
+        let id = format!("C01/hyrax-model/flat/{}", i);
+        if !ctx.selected(&id) {
+            continue;
+        }
+        let mut rng = rng_for(ctx.seed, "C01/hyrax-model/flat", i as u64);
+        let n = range(&mut rng, 1, 5);
+        let m = range(&mut rng, 1, 5);
+        let len = if i % 3 == 2 { n * m + 1 } else { n * m };
+        let flat: Vec<Fr> = (0..len).map(|_| Fr::rand(&mut rng)).collect();
+        let out = match guarded(|| ark_poly_commit::verif_hooks::flat_to_matrix_column_major(&flat, n, m)) {
+            Ok(rows) => ImplOutcome::Ok(vec![("rows".into(), Expect::Raw(wire::fess(&rows)))]),
+            Err(a) => ImplOutcome::Refuse(a),
+        };
+        ctx.ses.ask(
+            &id,
+            Req::new("hyrax.flat_to_matrix").arg("flat", wire::fes(&flat)).arg("n", wire::nat(n)).arg("m", wire::nat(m)),
+            out,
+        );
+        ctx.rep.case(&format!("hyrax flat_to_matrix n={} m={} len={}", n, m, len), None);
+    }
+    ctx.flush_model("C01-hyrax");
+}
+
+// ------------------------------------------------------------------------------------------------
+// C02: statement mutations with the honest proof
+// ------------------------------------------------------------------------------------------------
+
+fn report_false_accept(ctx: &mut Ctx, id: &str, c: &Case, what: &str, st: &Stmt, ch: &Checked, claim_false: bool) {
+    if claim_false && ch.dec == Dec::Accept {
+        ctx.rep.expect_fail(
+            id,
+            &format!("hyrax/false-claim-accepted/{}", what),
+            &format!("verifier accepted a false claim ({})", what),
+            c.replay(id, ctx.seed, &format!("mutation {} accepted: {}", what, stmt_text(st))),
+        );
+    }
+}
+
+fn c02(ctx: &mut Ctx) {
+    let n = ctx.n(12, 160);
+    for i in 0..n {
+        let id0 = format!("C02/hyrax-model/{}", i);
+        if !ctx.selected(&id0) {
+            continue;
+        }
+        let mut rng = rng_for(ctx.seed, "C02/hyrax-model", i as u64);
+        let nv = nv_for(ctx, &mut rng, i);
+        let k = 1 + (i / 3) % 3;
+        let kinds = kinds_for(&mut rng, i + 2, k);
+        let (c, o) = match base(ctx, &mut rng, &id0, nv, &kinds) {
+            Some(x) => x,
+            None => continue,
+        };
+        let st0 = honest_stmt(&c, &o);
+        for j in 0..k {
+            // value + delta
+            {
+                let id = format!("{}/value/{}", id0, j);
+                let mut st = st0.clone();
+                st.values[j] += rand_nonzero(&mut rng);
+                let ch = run_check(ctx, &id, &st);
+                // theorem hyrax_wrong_value_rejected: delta != 0 and ks[0] != 0 => rejected
+                report_false_accept(ctx, &id, &c, "value", &st, &ch, !c.trap.ks[0].is_zero());
+                ctx.rep.count("hyrax-model/mut-value");
+                ctx.rep.case(&format!("{} value+delta at {} -> {:?}", c.desc(), j, ch.dec), Some(format!("hyrax-model/value/{}/{}/{}", nv, k, j)));
+            }
+            // commitment of another polynomial at position j
+            {
+                let id = format!("{}/comm-other/{}", id0, j);
+                let (q, _) = poly_kind(&mut rng, nv, 4);
+                let lq = vec![LabeledPolynomial::new(format!("p{}", j), q.clone(), Some(1), None)];
+                if let Ok((cq, sq)) = commit_lib(&c.trap, &lq, &mut rng) {
+                    if let Ok(mq) = read_state(&sq[0]) {
+                        let s = row_scalars(&c.trap, &mq);
+                        if pts(&s) == cq[0].commitment().row_coms {
+                            let mut st = st0.clone();
+                            st.coms[j] = s;
+                            let ch = run_check(ctx, &id, &st);
+                            let claim_false = q.evaluate(&o.point) != st.values[j];
+                            report_false_accept(ctx, &id, &c, "comm-other", &st, &ch, claim_false);
+                            ctx.rep.count("hyrax-model/mut-comm-other");
+                            ctx.rep.case(&format!("{} commitment of another polynomial at {} -> {:?}", c.desc(), j, ch.dec), Some(format!("hyrax-model/comm-other/{}/{}", nv, j)));
+                        }
+                    }
+                }
+            }
+            // one row commitment replaced by a random element
+            {
+                let id = format!("{}/comm-row/{}", id0, j);
+                let mut st = st0.clone();
+                let r = range(&mut rng, 0, c.dim - 1);
+                st.coms[j][r] = Fr::rand(&mut rng);
+                let ch = run_check(ctx, &id, &st);
+                ctx.rep.count("hyrax-model/mut-comm-row");
+                ctx.rep.case(&format!("{} row commitment {} of {} replaced -> {:?}", c.desc(), r, j, ch.dec), Some(format!("hyrax-model/comm-row/{}/{}", nv, j)));
+            }
+        }
+        // another point, value kept (a false claim unless every polynomial agrees at both points)
+        {
+            let id = format!("{}/point", id0);
+            let mut st = st0.clone();
+            let t = range(&mut rng, 0, nv - 1);
+            st.point[t] += rand_nonzero(&mut rng);
+            let claim_false = c.polys.iter().zip(&st.values).any(|(p, v)| p.polynomial().evaluate(&st.point) != *v);
+            let ch = run_check(ctx, &id, &st);
+            report_false_accept(ctx, &id, &c, "point", &st, &ch, claim_false);
+            ctx.rep.count("hyrax-model/mut-point");
+            ctx.rep.case(&format!("{} point coordinate {} moved -> {:?}", c.desc(), t, ch.dec), Some(format!("hyrax-model/point/{}/{}/{}", nv, k, t)));
+        }
+        // another point with the values of that point (a true claim with a proof for another point)
+        {
+            let id = format!("{}/point-true", id0);
+            let mut st = st0.clone();
+            let (p2, _) = rand_point(&mut rng, nv);
+            st.point = p2;
+            st.values = c.polys.iter().map(|p| p.polynomial().evaluate(&st.point)).collect();
+            let ch = run_check(ctx, &id, &st);
+            ctx.rep.count("hyrax-model/mut-point-true");
+            ctx.rep.case(&format!("{} proof replayed at another point -> {:?}", c.desc(), ch.dec), Some(format!("hyrax-model/point-true/{}/{}", nv, k)));
+        }
+    }
+    ctx.flush_model("C02-hyrax");
+}
+
+// ------------------------------------------------------------------------------------------------
+// C03: crafted / malformed proofs for a FALSE value
+// ------------------------------------------------------------------------------------------------
+
+const COMPONENTS: &[&str] = &["com_eval", "com_d", "com_b", "z", "z_d", "z_b", "r_eval"];
+
+fn replace_component(rng: &mut Rng, p: &mut ProofS, comp: &str) {
+    match comp {
+        "com_eval" => p.ce = Fr::rand(rng),
+        "com_d" => p.cd = Fr::rand(rng),
+        "com_b" => p.cb = Fr::rand(rng),
+        "z" => {
+            let i = range(rng, 0, p.z.len() - 1);
+            p.z[i] = Fr::rand(rng)
+        }
+        "z_d" => p.z_d = Fr::rand(rng),
+        "z_b" => p.z_b = Fr::rand(rng),
+        _ => p.r_eval = Fr::rand(rng),
+    }
+}
+
+const SHAPES: &[&str] = &[
+    "proofs-shorter", "proofs-longer", "proofs-empty", "values-shorter", "values-longer", "coms-shorter",
+    "z-stretched-zero", "z-stretched-random", "z-shortened", "z-empty", "rows-shorter", "rows-longer", "rows-empty",
+];
+
+fn apply_shape(rng: &mut Rng, st: &mut Stmt, j: usize, shape: &str) {
+    match shape {
+        "proofs-shorter" => {
+            st.proofs.pop();
+        }
+        "proofs-longer" => {
+            let p = st.proofs[j].clone();
+            st.proofs.push(p)
+        }
+        "proofs-empty" => st.proofs.clear(),
+        "values-shorter" => {
+            st.values.pop();
+        }
+        "values-longer" => st.values.push(Fr::rand(rng)),
+        "coms-shorter" => {
+            st.coms.pop();
+        }
+        "z-stretched-zero" => st.proofs[j].z.push(Fr::zero()),
+        "z-stretched-random" => st.proofs[j].z.push(Fr::rand(rng)),
+        "z-shortened" => {
+            st.proofs[j].z.pop();
+        }
+        "z-empty" => st.proofs[j].z.clear(),
+        "rows-shorter" => {
+            st.coms[j].pop();
+        }
+        "rows-longer" => st.coms[j].push(Fr::rand(rng)),
+        _ => st.coms[j].clear(),
+    }
+}
+
+fn c03(ctx: &mut Ctx) {
+    let n = ctx.n(8, 100);
+    for i in 0..n {
+        let id0 = format!("C03/hyrax-model/{}", i);
+        if !ctx.selected(&id0) {
+            continue;
+        }
+        let mut rng = rng_for(ctx.seed, "C03/hyrax-model", i as u64);
+        let nv = nv_for(ctx, &mut rng, i);
+        let k = 1 + (i / 3) % 3;
+        let kinds = kinds_for(&mut rng, i + 4, k);
+        let (c, o) = match base(ctx, &mut rng, &id0, nv, &kinds) {
+            Some(x) => x,
+            None => continue,
+        };
+        let st0 = honest_stmt(&c, &o);
+        let j = range(&mut rng, 0, k - 1);
+        let delta = rand_nonzero(&mut rng);
+        let mut stf = st0.clone();
+        stf.values[j] += delta; // the FALSE claim every forgery below tries to prove
+        // (iii) single-component replacement
+        for comp in COMPONENTS {
+            let id = format!("{}/replace/{}", id0, comp);
+            let mut st = stf.clone();
+            replace_component(&mut rng, &mut st.proofs[j], comp);
+            let ch = run_check(ctx, &id, &st);
+            report_false_accept(ctx, &id, &c, &format!("replace-{}", comp), &st, &ch, true);
+            ctx.rep.count(&format!("hyrax-model/replace-{}", comp));
+            ctx.rep.case(&format!("{} false value, {} replaced -> {:?}", c.desc(), comp, ch.dec), Some(format!("hyrax-model/replace/{}/{}/{}", comp, nv, k)));
+        }
+        // the one accepted r_eval for the false value (theorem hyrax_value_and_r_eval): it needs the
+        // discrete log of com_key[0] w.r.t. h, i.e. it is exactly a break of the Pedersen binding;
+        // the model must agree, no expectation attached
+        {
+            let id = format!("{}/compensated-r_eval", id0);
+            let mut st = stf.clone();
+            st.proofs[j].r_eval -= delta * c.trap.ks[0] * c.trap.h.inverse().unwrap();
+            let ch = run_check(ctx, &id, &st);
+            ctx.rep.count(&format!("hyrax-model/compensated-{:?}", ch.dec));
+            ctx.rep.case(&format!("{} false value with r_eval solved from the trapdoor -> {:?}", c.desc(), ch.dec), Some(format!("hyrax-model/compensated/{}", nv)));
+        }
+        // (i) honest prover run on another polynomial q (own commitment and state), used against com(p)
+        {
+            let (q, _) = poly_kind(&mut rng, nv, 4);
+            let lq = vec![LabeledPolynomial::new(format!("p{}", j), q.clone(), Some(1), None)];
+            if let Ok((cq, sq)) = commit_lib(&c.trap, &lq, &mut rng) {
+                if let Ok(oq) = open_lib(&c.trap, &lq, &cq, &sq, &o.point, &mut rng) {
+                    let id = format!("{}/proof-of-other-poly", id0);
+                    let mut st = st0.clone();
+                    st.proofs[j] = oq.proofs_s[0].clone();
+                    st.values[j] = q.evaluate(&o.point);
+                    let claim_false = st.values[j] != st0.values[j];
+                    let ch = run_check(ctx, &id, &st);
+                    report_false_accept(ctx, &id, &c, "proof-of-other-poly", &st, &ch, claim_false);
+                    ctx.rep.count("hyrax-model/proof-of-other-poly");
+                    ctx.rep.case(&format!("{} proof of another polynomial -> {:?}", c.desc(), ch.dec), Some(format!("hyrax-model/other-poly/{}/{}", nv, k)));
+                }
+                // prover run on (p, com p) with the STATE of q
+                let mut states: Vec<HState> = vec![];
+                for (t, m) in c.mirrors.iter().enumerate() {
+                    if t == j {
+                        match read_state(&sq[0]).and_then(|m| make_state(&m)) {
+                            Ok(s) => states.push(s),
+                            Err(_) => {}
+                        }
+                    } else if let Ok(s) = make_state(m) {
+                        states.push(s)
+                    }
+                }
+                if states.len() == k {
+                    if let Ok(os) = open_lib(&c.trap, &c.polys, &c.coms, &states, &o.point, &mut rng) {
+                        let id = format!("{}/proof-from-other-state", id0);
+                        let mut mirrors = c.mirrors.clone();
+                        mirrors[j] = read_state(&sq[0]).unwrap();
+                        ask_open(ctx, &id, &c.trap, &c.labels(), &c.labels(), &vec![nv; k], &mirrors, &os);
+                        let mut st = st0.clone();
+                        st.proofs = os.proofs_s.clone();
+                        st.values[j] = q.evaluate(&o.point);
+                        let claim_false = st.values[j] != st0.values[j];
+                        let ch = run_check(ctx, &id, &st);
+                        report_false_accept(ctx, &id, &c, "proof-from-other-state", &st, &ch, claim_false);
+                        ctx.rep.count("hyrax-model/proof-from-other-state");
+                        ctx.rep.case(&format!("{} proof made from another state -> {:?}", c.desc(), ch.dec), Some(format!("hyrax-model/other-state/{}/{}", nv, k)));
+                    }
+                }
+            }
+        }
+        // (ii) proof for another point, presented at the original point with the other point's values
+        {
+            let (p2, _) = rand_point(&mut rng, nv);
+            if let Ok(o2) = open_lib(&c.trap, &c.polys, &c.coms, &c.states, &p2, &mut rng) {
+                let id = format!("{}/proof-other-point", id0);
+                let mut st = st0.clone();
+                st.proofs = o2.proofs_s.clone();
+                st.values = c.polys.iter().map(|p| p.polynomial().evaluate(&p2)).collect();
+                let claim_false = st.values != st0.values;
+                let ch = run_check(ctx, &id, &st);
+                report_false_accept(ctx, &id, &c, "proof-other-point", &st, &ch, claim_false);
+                ctx.rep.count("hyrax-model/proof-other-point");
+                ctx.rep.case(&format!("{} proof for another point -> {:?}", c.desc(), ch.dec), Some(format!("hyrax-model/other-point/{}/{}", nv, k)));
+            }
+        }
+        // (iv) shapes, with the false value
+        for shape in SHAPES {
+            let id = format!("{}/shape/{}", id0, shape);
+            let mut st = stf.clone();
+            apply_shape(&mut rng, &mut st, j, shape);
+            let ch = run_check(ctx, &id, &st);
+            // an empty statement (no commitment, no value, no proof) claims nothing
+            let claims_something = !(st.coms.is_empty() && st.values.is_empty() && st.proofs.is_empty());
+            report_false_accept(ctx, &id, &c, &format!("shape-{}", shape), &st, &ch, claims_something);
+            ctx.rep.count(&format!("hyrax-model/shape-{}-{:?}", shape, ch.dec));
+            ctx.rep.case(&format!("{} false value, {} -> {:?}", c.desc(), shape, ch.dec), Some(format!("hyrax-model/shape/{}/{}/{}", shape, nv, k)));
+        }
+        // shapes on the trapdoor-compensated forgery (the evaluation test passes, so the later
+        // shape tests are reached with a false value): only the model has a say
+        for shape in SHAPES {
+            let id = format!("{}/shape-comp/{}", id0, shape);
+            let mut st = stf.clone();
+            st.proofs[j].r_eval -= delta * c.trap.ks[0] * c.trap.h.inverse().unwrap();
+            apply_shape(&mut rng, &mut st, j, shape);
+            let ch = run_check(ctx, &id, &st);
+            ctx.rep.count(&format!("hyrax-model/shape-comp-{}-{:?}", shape, ch.dec));
+            ctx.rep.case(&format!("{} compensated false value, {} -> {:?}", c.desc(), shape, ch.dec), None);
+        }
+        // shapes with the TRUE value: only the model has a say
+        for shape in ["proofs-empty", "z-stretched-zero", "rows-shorter"] {
+            let id = format!("{}/shape-true/{}", id0, shape);
+            let mut st = st0.clone();
+            apply_shape(&mut rng, &mut st, j, shape);
+            let ch = run_check(ctx, &id, &st);
+            ctx.rep.count(&format!("hyrax-model/shape-true-{}-{:?}", shape, ch.dec));
+            ctx.rep.case(&format!("{} true value, {} -> {:?}", c.desc(), shape, ch.dec), None);
+        }
+    }
+    ctx.flush_model("C03-hyrax");
+}
+
+// ------------------------------------------------------------------------------------------------
+// C10: single-fault neighbourhood of honest transcripts
+// ------------------------------------------------------------------------------------------------
+
+fn c10(ctx: &mut Ctx) {
+    let n = ctx.n(10, 140);
+    for i in 0..n {
+        let id0 = format!("C10/hyrax-model/{}", i);
+        if !ctx.selected(&id0) {
+            continue;
+        }
+        let mut rng = rng_for(ctx.seed, "C10/hyrax-model", i as u64);
+        let nv = nv_for(ctx, &mut rng, i);
+        let k = 1 + (i / 3) % 3;
+        let kinds = kinds_for(&mut rng, i + 1, k);
+        let (c, o) = match base(ctx, &mut rng, &id0, nv, &kinds) {
+            Some(x) => x,
+            None => continue,
+        };
+        let st0 = honest_stmt(&c, &o);
+        {
+            let id = format!("{}/honest", id0);
+            let ch = run_check(ctx, &id, &st0);
+            if ch.dec != Dec::Accept {
+                ctx.rep.expect_fail(&id, "hyrax/honest-rejected", &format!("honest transcript not accepted: {}", ch.detail),
+                    c.replay(&id, ctx.seed, &stmt_text(&st0)));
+            }
+            ctx.rep.case(&format!("{} honest -> {:?}", c.desc(), ch.dec), None);
+        }
+        let j = range(&mut rng, 0, k - 1);
+        let faults: Vec<String> = COMPONENTS
+            .iter()
+            .map(|s| s.to_string())
+            .chain(["key-0", "key-i", "key-h", "row-com", "point", "value"].iter().map(|s| s.to_string()))
+            .collect();
+        for f in &faults {
+            let id = format!("{}/fault/{}", id0, f);
+            let mut st = st0.clone();
+            let mut claim_false = false;
+            match f.as_str() {
+                "key-0" => st.ks[0] = rand_nonzero(&mut rng),
+                "key-i" => {
+                    let t = range(&mut rng, 0, st.ks.len() - 1);
+                    st.ks[t] = rand_nonzero(&mut rng)
+                }
+                "key-h" => st.h = rand_nonzero(&mut rng),
+                "row-com" => {
+                    let t = range(&mut rng, 0, c.dim - 1);
+                    st.coms[j][t] = Fr::rand(&mut rng)
+                }
+                "point" => {
+                    let t = range(&mut rng, 0, nv - 1);
+                    st.point[t] += rand_nonzero(&mut rng);
+                    claim_false = c.polys.iter().zip(&st.values).any(|(p, v)| p.polynomial().evaluate(&st.point) != *v);
+                }
+                "value" => {
+                    st.values[j] += rand_nonzero(&mut rng);
+                    claim_false = true;
+                }
+                comp => replace_component(&mut rng, &mut st.proofs[j], comp),
+            }
+            let ch = run_check(ctx, &id, &st);
+            report_false_accept(ctx, &id, &c, &format!("fault-{}", f), &st, &ch, claim_false);
+            ctx.rep.count(&format!("hyrax-model/fault-{}-{:?}", f, ch.dec));
+            ctx.rep.case(&format!("{} fault {} -> {:?}", c.desc(), f, ch.dec), Some(format!("hyrax-model/fault/{}/{}/{}", f, nv, k)));
+        }
+    }
+    ctx.flush_model("C10-hyrax");
+}
+
+// ------------------------------------------------------------------------------------------------
+// C08: row commitments are the key-defined linear map
+// ------------------------------------------------------------------------------------------------
+
+fn c08(ctx: &mut Ctx) {
+    let n = ctx.n(12, 120);
+    for i in 0..n {
+        let id = format!("C08/hyrax-model/{}", i);
+        if !ctx.selected(&id) {
+            continue;
+        }
+        let mut rng = rng_for(ctx.seed, "C08/hyrax-model", i as u64);
+        let nv = nv_for(ctx, &mut rng, i);
+        // p, q and p + q under one key
+        let dim = 1usize << (nv / 2);
+        let trap = Trap::random(&mut rng, dim);
+        let (p, kp) = poly_kind(&mut rng, nv, [0usize, 1, 2, 3, 4][i % 5]);
+        let (q, _) = poly_kind(&mut rng, nv, 4);
+        let sum = &p + &q;
+        let polys = vec![
+            LabeledPolynomial::new("p0".to_string(), p, Some(1), None),
+            LabeledPolynomial::new("p1".to_string(), q, Some(1), None),
+            LabeledPolynomial::new("p2".to_string(), sum, Some(1), None),
+        ];
+        let (coms, states) = match commit_lib(&trap, &polys, &mut rng) {
+            Ok(x) => x,
+            Err(e) => {
+                ctx.rep.expect_fail(&id, "hyrax/honest-commit-failed", &format!("in-domain commit refused: {}", e),
+                    format!("# scheme: hyrax\n# case: {}\n# seed: {}\n# nv={}\n", id, ctx.seed, nv));
+                continue;
+            }
+        };
+        let mirrors: Vec<StateMirror> = match states.iter().map(read_state).collect::<Result<Vec<_>, _>>() {
+            Ok(m) => m,
+            Err(e) => {
+                ctx.rep.expect_fail(&id, "hyrax/state-layout", &e, format!("# scheme: hyrax\n# case: {}\n# {}\n", id, e));
+                continue;
+            }
+        };
+        let ck = trap.params();
+        // naive double-and-add sum over the PUBLISHED key points (no MSM code shared)
+        let mut key_points: Vec<G1Affine> = ck.com_key.clone();
+        key_points.push(ck.h);
+        let mut ok_naive = true;
+        let mut ok_matrix = true;
+        for (t, (cm, m)) in coms.iter().zip(&mirrors).enumerate() {
+            let evals = &polys[t].polynomial().evaluations;
+            for r in 0..dim {
+                // the matrix entry (row, col) is evals[col * dim + row]
+                let row: Vec<Fr> = (0..dim).map(|col| evals[col * dim + r]).collect();
+                if row != m.mat.entries[r] {
+                    ok_matrix = false;
+                }
+                let mut coeffs = row.clone();
+                coeffs.push(m.randomness[r]);
+                if crate::props_c08::naive_sum(&key_points, &coeffs).into_affine() != cm.commitment().row_coms[r] {
+                    ok_naive = false;
+                }
+            }
+        }
+        if !ok_matrix {
+            ctx.rep.expect_fail(&id, "hyrax/state-matrix-not-column-major", "state matrix differs from M[row][col] = evals[col*dim+row]",
+                format!("# scheme: hyrax\n# case: {}\n# seed: {}\n# nv={}\n", id, ctx.seed, nv));
+        }
+        if !ok_naive {
+            ctx.rep.expect_fail(&id, "hyrax/commit-not-key-defined", "row commitment differs from the naive sum <row, com_key> + rho*h",
+                format!("# scheme: hyrax\n# case: {}\n# seed: {}\n# nv={} ks={} h={}\n", id, ctx.seed, nv, wire::fes(&trap.ks), wire::fe(&trap.h)));
+        }
+        // additivity with the blinding removed: rows(p+q) - rho_{p+q} h = (rows(p) - rho_p h) + (rows(q) - rho_q h)
+        let unblind = |t: usize, r: usize| -> ark_bls12_381::G1Projective {
+            coms[t].commitment().row_coms[r].into_group() - ck.h.into_group() * mirrors[t].randomness[r]
+        };
+        let mut ok_add = true;
+        for r in 0..dim {
+            if unblind(2, r) != unblind(0, r) + unblind(1, r) {
+                ok_add = false;
+            }
+        }
+        if !ok_add {
+            ctx.rep.expect_fail(&id, "hyrax/not-additive", "rows(p+q) != rows(p) + rows(q) once the states' randomness is accounted for",
+                format!("# scheme: hyrax\n# case: {}\n# seed: {}\n# nv={}\n", id, ctx.seed, nv));
+        }
+        // and the model
+        let com_s: Vec<Vec<Fr>> = mirrors.iter().map(|m| row_scalars(&trap, m)).collect();
+        let case = Case { trap, nv, dim, polys, kinds: vec![kp, "random", "sum"], coms, states, mirrors, com_s };
+        ask_commit(ctx, &id, &case);
+        ctx.rep.count(&format!("hyrax-model/nv-{}", nv));
+        ctx.rep.case(&format!("hyrax commit p,q,p+q nv={} kind={}", nv, kp), Some(format!("hyrax-model/c08/{}/{}", nv, kp)));
+    }
+    // refusals of commit: odd number of variables, key too short / too long
+    for (t, (nv, klen)) in [(3usize, 2usize), (4, 2), (2, 1), (4, 8), (1, 1)].iter().enumerate() {
+        let id = format!("C08/hyrax-model/refuse/{}", t);
+        if !ctx.selected(&id) {
+            continue;
+        }
+        let mut rng = rng_for(ctx.seed, "C08/hyrax-model/refuse", t as u64);
+        let trap = Trap::random(&mut rng, *klen);
+        let (p, _) = poly_kind(&mut rng, *nv, 4);
+        let evals = p.evaluations.clone();
+        let polys = vec![LabeledPolynomial::new("p0".to_string(), p, Some(1), None)];
+        let out = match commit_lib(&trap, &polys, &mut rng) {
+            Ok((coms, _)) => ImplOutcome::Ok(vec![("lens".into(), Expect::Nats(coms.iter().map(|c| c.commitment().row_coms.len()).collect()))]),
+            Err(e) => ImplOutcome::Refuse(e),
+        };
+        let dim = 1usize << (nv / 2);
+        let draws: Vec<Fr> = (0..dim).map(|_| Fr::rand(&mut rng)).collect();
+        ctx.ses.ask(
+            &id,
+            Req::new("hyrax.commit")
+                .arg("ks", wire::fes(&trap.ks))
+                .arg("h", wire::fe(&trap.h))
+                .arg("nvs", wire::nats(&[*nv]))
+                .arg("evals", wire::fess(&[evals]))
+                .arg("draws", wire::fes(&draws)),
+            out,
+        );
+        ctx.rep.case(&format!("hyrax commit nv={} key length {}", nv, klen), Some(format!("hyrax-model/c08-refuse/{}/{}", nv, klen)));
+    }
+    ctx.flush_model("C08-hyrax");
+}
+
+// ------------------------------------------------------------------------------------------------
+// C11: prover and verifier absorb the same byte strings and squeeze the same challenges
+// ------------------------------------------------------------------------------------------------
+
+fn c11(ctx: &mut Ctx) {
+    let n = ctx.n(9, 90);
+    for i in 0..n {
+        let id = format!("C11/hyrax-model/{}", i);
+        if !ctx.selected(&id) {
+            continue;
+        }
+        let mut rng = rng_for(ctx.seed, "C11/hyrax-model", i as u64);
+        let nv = nv_for(ctx, &mut rng, i);
+        let k = 1 + (i / 3) % 3;
+        let kinds = kinds_for(&mut rng, i, k);
+        let (c, o) = match base(ctx, &mut rng, &id, nv, &kinds) {
+            Some(x) => x,
+            None => continue,
+        };
+        let st = honest_stmt(&c, &o);
+        let ch = run_check(ctx, &id, &st);
+        if o.sponge.log != ch.sponge.log || o.sponge.probe() != ch.sponge.probe() {
+            ctx.rep.expect_fail(
+                &id,
+                "hyrax/transcript-not-lockstep",
+                &format!("prover events [{}] differ from verifier events [{}]", o.sponge.shape(), ch.sponge.shape()),
+                c.replay(&id, ctx.seed, "prover and verifier sponge logs differ"),
+            );
+        }
+        // 6 absorbs and one squeeze per polynomial
+        let expected: Vec<String> = (0..k).flat_map(|_| vec!["a"; 6].into_iter().map(String::from).chain(std::iter::once("sf1".to_string()))).collect();
+        let got: Vec<String> = o.sponge.shape().split(',').map(|s| if s.starts_with('a') { "a".to_string() } else { s.to_string() }).collect();
+        if got != expected {
+            ctx.rep.expect_fail(&id, "hyrax/transcript-shape", &format!("event shape {}", o.sponge.shape()),
+                c.replay(&id, ctx.seed, "expected 6 absorbs + 1 squeeze per polynomial"));
+        }
+        ctx.rep.case(&format!("{} lock-step", c.desc()), Some(format!("hyrax-model/c11/{}/{}", nv, k)));
+    }
+    ctx.flush_model("C11-hyrax");
+}
+
+// ------------------------------------------------------------------------------------------------
+// C19: sizes
+// ------------------------------------------------------------------------------------------------
+
+fn c19(ctx: &mut Ctx) {
+    let ladder: Vec<usize> = if ctx.thorough { vec![2, 4, 6, 8, 10, 12] } else { vec![2, 4, 6, 8] };
+    for (i, nv) in ladder.iter().enumerate() {
+        for k in 1..=2usize {
+            let id = format!("C19/hyrax-model/{}/{}", nv, k);
+            if !ctx.selected(&id) {
+                continue;
+            }
+            let mut rng = rng_for(ctx.seed, "C19/hyrax-model", (i * 4 + k) as u64);
+            let kinds = vec![4usize; k];
+            let (c, o) = match base(ctx, &mut rng, &id, *nv, &kinds) {
+                Some(x) => x,
+                None => continue,
+            };
+            let dim = 1usize << (nv / 2);
+            let g1_bytes = G1Affine::generator().compressed_size();
+            let fr_bytes = Fr::zero().compressed_size();
+            let mut ok = o.proofs.len() == k;
+            for (cm, p) in c.coms.iter().zip(&o.proofs) {
+                ok &= cm.commitment().row_coms.len() == dim && p.z.len() == dim;
+                ok &= cm.commitment().compressed_size() == 8 + dim * g1_bytes;
+                ok &= p.compressed_size() == 3 * g1_bytes + 8 + dim * fr_bytes + 3 * fr_bytes;
+            }
+            if !ok {
+                ctx.rep.expect_fail(&id, "hyrax/size", "row_coms.len() / z.len() / serialized size differs from 2^(nv/2) shape",
+                    c.replay(&id, ctx.seed, &format!("expected dim={}", dim)));
+            }
+            // the model's shapes
+            ask_commit(ctx, &id, &c);
+            ask_open(ctx, &id, &c.trap, &c.labels(), &c.labels(), &vec![*nv; k], &c.mirrors, &o);
+            ctx.rep.count(&format!("hyrax-model/nv-{}", nv));
+            ctx.rep.case(&format!("hyrax sizes nv={} k={} dim={}", nv, k, dim), Some(format!("hyrax-model/c19/{}/{}", nv, k)));
+        }
+    }
+    let _ = Val::None;
+    ctx.flush_model("C19-hyrax");
 }
